@@ -81,5 +81,7 @@ def blockStringOpeners : List String := ["\"", "'", "`"]
 def getTemplateLooksIn : String := "templates"
 /-- process-wide or manager-wide shared containers (sync.Pool / sync.Map variables and fields, package-level maps) -/
 def sharedContainers : List String := []
+/-- Combine(child, parent) call sites: (function, head of the child argument, parent argument) -/
+def combineSites : List (String × String × String) := [("Execute", "scope", "exp.NewScope(data)"), ("processTagStart", "exp.NewScope", "data"), ("processRange", "exp.NewScope", "scope"), ("WithDefaultScope", "s", "defaultScope")]
 
 end Facts
